@@ -24,7 +24,7 @@ UNITS.append(Unit('backmp11.transition.execute', PROPS, 'backmp11',
         dict(name='exit-point-active-test', pat='source . is_state_active ( Row :: Source )', rep='is_exit_state_active_mp11 ( source )', min=0, max=1),
         dict(name='exit-call', pat='source . on_exit (', rep='state_on_exit ( current_state_type , source ,', min=1, max=1),
         dict(name='member-call', pat='sm -> on_state_entry_completed (', rep='on_state_entry_completed ( sm ,', min=1, max=1)]),
-    aux=policy_aux(), fire={'ASSERT': (1, 1), 'AUX': (16, 16)}, replay=['order']))
+    aux=policy_aux(), fire={'ASSERT': (1, 1), 'AUX': (16, 16)}, replay=['order', 'exc', 'hist', 'sel']))
 for (nm, scope, sig, smi) in (('state', ['struct internal_transition {'], 'static process_result execute ( StateMachine & sm , uint8_t region_id , transition_event const & event )', 0),
                               ('sm', ['struct internal_transition < Row , HasAction , HasGuard , StateMachine >'], 'static process_result execute ( StateMachine & sm , transition_event const & event )', 1)):
     UNITS.append(Unit('backmp11.internal_transition.%s.execute' % nm, ['C02', 'C01', 'C03', 'C13'], 'backmp11',
